@@ -26,7 +26,8 @@ Definition request_ctx (r : creq) (o : opv) : rctx :=
   mkRctx (client_env (op_client o)) (server_env (op_server o)) (mc_limit (op_method o)) (q_content_len r)
          (negb (Nat.eqb (length (op_client_comp o)) 0)) (negb (Nat.eqb (length (op_server_comp o)) 0))
          (match server_env (op_server o) with None => true | Some _ => false end)
-         same_req_codec (bytes_eqb (op_client_comp o) (op_server_comp o)) client_prep.
+         same_req_codec (bytes_eqb (op_client_comp o) (op_server_comp o))
+         (client_prep || match client_env (op_client o) with None => true | Some _ => false end).
 
 Definition serve_head (pf : bytes -> option Z) (ff : Z -> bytes) (t : tconf) (r : creq) : dispatch :=
   match validate pf t r with
@@ -44,7 +45,8 @@ Definition serve_head (pf : bytes -> option Z) (ff : Z -> bytes) (t : tconf) (r 
           let accept := filter (fun n => bmem n (tc_known_comps t)) (rq_accept (op_meta o)) in
           let h := add_request_headers ff s (op_server_codec o) (op_server_comp o) accept (rq_tmo (op_meta o)) (op_hdr o) in
           let cx := request_ctx r o in
-          let a := if same_codec cx && same_comp cx then AEnveloping else ATransforming in
+          let mixed := must_compress cx && match cenv cx with Some _ => true | None => false end in
+          let a := if same_codec cx && same_comp cx && negb mixed then AEnveloping else ATransforming in
           DHandle (mkBhead m_post (mc_path (op_method o)) false (op_proto_major o) h (-1)) a cx o
       end
   end.
